@@ -7,6 +7,7 @@ import (
 	"sort"
 	"strings"
 	"sync"
+	"time"
 
 	"fverif/run"
 	"fverif/sim"
@@ -108,4 +109,12 @@ func c19lock(c *run.Ctx) {
 	if c.Shard == 0 {
 		c.Sample(map[string]interface{}{"lock_order_edges": es, "lock_events": events})
 	}
+	if len(cycles) > 0 {
+		return
+	}
+	// atomicity under widened windows: with the observer compiled in, every goroutine pauses just before it starts waiting for a
+	// table lock, i.e. BETWEEN two critical sections of one store operation and never inside one. The hot-key bursts are
+	// replayed under that schedule and judged by the same linearizability checker.
+	c19hot(c, c19Model(), map[bool]int{true: 600, false: 6000}[c.Quick()], 30*time.Microsecond)
+	c.Count("c19_delayed_bursts", 1)
 }
